@@ -530,7 +530,7 @@ pub(crate) fn verify_requested_restrictions(
             {
                 let mut map = HashMap::new();
                 map.insert(
-                    name.clone(),
+                    attr_common_view(name),
                     requested_proof
                         .revealed_attrs
                         .get(referent)
@@ -545,7 +545,7 @@ pub(crate) fn verify_requested_restrictions(
                     .ok_or_else(|| err_msg!("Proof does not have referent from proof request"))?;
                 for name in names {
                     let val = attrs.values.get(name).map(|attr| attr.raw.clone());
-                    map.insert(name.clone(), val);
+                    map.insert(attr_common_view(name), val);
                 }
                 map
             } else {
@@ -578,7 +578,7 @@ pub(crate) fn verify_requested_restrictions(
 
             // start with the predicate requested attribute, which is un-revealed
             let mut attr_value_map: HashMap<String, Option<String>> = HashMap::new();
-            attr_value_map.insert(info.name.to_string(), None);
+            attr_value_map.insert(attr_common_view(&info.name), None);
 
             // include any revealed attributes for the same credential (based on sub_proof_index)
             let pred_sub_proof_index = requested_proof
@@ -595,7 +595,7 @@ pub(crate) fn verify_requested_restrictions(
                         .get(attr_referent)
                         .and_then(|info| info.name.clone());
                     if let Some(name) = attr_name {
-                        attr_value_map.insert(name, Some(attr_info.raw.clone()));
+                        attr_value_map.insert(attr_common_view(&name), Some(attr_info.raw.clone()));
                     }
                 }
             }
@@ -608,7 +608,7 @@ pub(crate) fn verify_requested_restrictions(
                 if pred_sub_proof_index == attr_sub_proof_index {
                     for name in attr_info.values.keys() {
                         let raw_val = attr_info.values.get(name).unwrap().raw.clone();
-                        attr_value_map.insert(name.to_string(), Some(raw_val));
+                        attr_value_map.insert(attr_common_view(name), Some(raw_val));
                     }
                 }
             }
@@ -803,7 +803,7 @@ fn precess_filed(filed: &str, filter_value: impl Into<String>, tag_value: &str) 
 fn is_attr_internal_tag(key: &str, attr_value_map: &HashMap<String, Option<String>>) -> bool {
     INTERNAL_TAG_MATCHER.captures(key).map_or(false, |caps| {
         caps.get(1).map_or(false, |s| {
-            attr_value_map.contains_key(&s.as_str().to_string())
+            attr_value_map.contains_key(&attr_common_view(s.as_str()))
         })
     })
 }
@@ -818,14 +818,17 @@ fn check_internal_tag_revealed_value(
         .ok_or_else(|| err_msg!(InvalidState, "Attribute name became unparseable",))?;
     // a marker tag only states that the credential has the attribute; it carries no value to
     // compare (`attr::<name>::value` does)
-    if captures.get(2).map_or(false, |kind| kind.as_str() == "marker") {
+    if captures
+        .get(2)
+        .map_or(false, |kind| kind.as_str() == "marker")
+    {
         return Ok(());
     }
     let attr_name = captures
         .get(1)
         .ok_or_else(|| err_msg!(InvalidState, "No name has been parsed",))?
         .as_str();
-    if let Some(Some(revealed_value)) = attr_value_map.get(attr_name) {
+    if let Some(Some(revealed_value)) = attr_value_map.get(&attr_common_view(attr_name)) {
         if *revealed_value != tag_value {
             return Err(err_msg!(
                 ProofRejected,
